@@ -2,6 +2,9 @@
 
 Tie T: Gen/PredGen.v regenerated from Predicate._impl_and/_impl_or/from_bool/logical_and/logical_or/logical_not
        (+ the two `invert` methods); Props/C15.v is re-proved over it.
+       Gen/NormalFormGen.v regenerated from the wrapper classes of normalForm.py (dispatch / distribution / negation rules,
+       satisfies, flatten; harness/translators/normalform.py) and Gen/PredVisitGen.v from
+       SimplePredicateVisitor.apply_logical_* (harness/translators/pred_visitor.py).
 Tie K: the same formulas through the real Predicate / NormalFormExpression machinery (harness/impl/c15_impl.py,
        worker subprocesses) and through the Coq models (hand + regenerated) with vm_compute; the observable
        compared is the full truth table over all 3^n Kleene assignments; exact structure is drift-only.
@@ -17,6 +20,8 @@ import json
 from pathlib import Path
 
 from harness.common import VERIF, Ctx, cbool, clist, coq_make, parallel_workers, run_worker
+from harness.translators import normalform as tr_nf
+from harness.translators import pred_visitor as tr_pv
 from harness.translators import predicate as tr
 
 # ---------------------------------------------------------------------------------------------------
@@ -333,12 +338,55 @@ def gen_nf(ctx: Ctx, rng, quick: bool) -> Batch:
     return b
 
 
+def gen_visit(ctx: Ctx, rng, quick: bool) -> Batch:
+    """predicates to visit with a substituting SimplePredicateVisitor: formula + {atom: replacement formula}"""
+    b = Batch()
+    kinds = [0, 1, 2, 3]
+    # every depth <= 2 formula over 2 atoms, atom 0 replaced by TRUE / FALSE / (x1) / (NOT x1) / (x0 AND x1) in turn
+    repls = [["c", True], ["c", False], ["a", 1, 0], ["n", ["a", 1, 0]], ["&", ["a", 0, 0], ["a", 1, 0]]]
+    small = exhaustive([["a", 0, 0], ["a", 1, 0]], 2)
+    for i, f in enumerate(small if not quick else rng.sample(small, 250)):
+        b.add(2, {"f": f, "sub": {"0": repls[i % len(repls)]}})
+    for _ in range(700 if quick else 6000):
+        n = rng.choice([3, 3, 4])
+        f = random_formula(rng, n, rng.randrange(1, 7), False, True, kinds)
+        sub = {}
+        for a in rng.sample(range(n), rng.choice([1, 1, 2])):
+            sub[str(a)] = random_formula(rng, n, rng.randrange(1, 4), True, False, kinds)
+        b.add(n, {"f": f, "sub": sub})
+    return b
+
+
+def fsubst(f, sub):
+    """the formula with every substituted atom replaced: the reference meaning of visiting with replacements"""
+    t = f[0]
+    if t == "a":
+        return sub.get(str(f[1]), f)
+    if t == "c":
+        return f
+    return [t] + [fsubst(g, sub) for g in f[1:]]
+
+
+def _cnf_table(ops, leaf_value, n):
+    out = []
+    for v in asg(n):
+        acc = "T"
+        for g in ops:
+            x = "F"
+            for a, pos in g:
+                x = k_or(x, leaf_value(a, pos, v))
+            acc = k_and(acc, x)
+        out.append(acc)
+    return "".join(out)
+
+
 # ---------------------------------------------------------------------------------------------------
 class State:
     def __init__(self):
         self.form_cases, self.form_meta, self.form_shape = [], [], []       # Coq literals, replay dicts, has real ops
         self.step_cases, self.step_meta = [], []
         self.nf_cases, self.nf_meta = [], []
+        self.visit_cases, self.visit_meta = [], []
 
 
 def check_pred(ctx: Ctx, st: State, n: int, f, o, coq=True):
@@ -432,8 +480,57 @@ def check_nf(ctx: Ctx, st: State, n: int, c, o, coq=True):
     st.nf_meta.append(rep)
 
 
-def run_impl(ctx: Ctx, st: State, pred: Batch, nf: Batch, coq=True, steps_frac=True):
+def check_visit(ctx: Ctx, st: State, n: int, c, o, coq=True):
+    """oracle + Coq case for one predicate visited by a substituting SimplePredicateVisitor"""
+    ctx.count()
+    f, sub = c["f"], c["sub"]
+    rep = {"system": "visit", "n": n, "f": f, "sub": sub}
+    if o.get("skip"):
+        ctx.hist("visit_result", "skipped-" + str(o["skip"]))
+        return
+    if "error" in o:
+        ctx.oracle_fail(f"visit-error:{o['error']}", dict(rep, error=o), "visiting with a SimplePredicateVisitor raised")
+        return
+    want = ftable(fsubst(f, sub), n)
+    neg_replaced = any((not pos) and str(a) in sub for g in o["ops"] for a, pos in g)
+    touched = any(str(a) in sub for g in o["ops"] for a, pos in g)
+    ctx.hist("visit_kind", ("none-returned" if o["none"] else "rebuilt") + ("+neg-replaced" if neg_replaced else ""))
+    if touched and len(fatoms(f)) >= 2:
+        ctx.nontrivial(["visit", f, sub])
+    if o["none"] and touched:
+        ctx.oracle_fail("visit-none:replacement-ignored", dict(rep, operands=o["ops"]),
+                        "the visitor replaced a leaf but the apply_* helpers reported `nothing changed`")
+    for how, got in (("visitor", o["tv"]), ("operands", o["td"])):
+        if got != want:
+            i = next(k for k in range(len(want)) if got[k:k + 1] != want[k])
+            # classification only: what one gets when a replacement under NOT is dropped (NOT of the ORIGINAL leaf)
+            subt = {a: ftable(g, n) for a, g in sub.items()}
+            idx = {tuple(v): k for k, v in enumerate(asg(n))}
+
+            def leaf(a, pos, v):
+                if not pos:
+                    return K_NOT[v[a]]
+                return subt[str(a)][idx[tuple(v)]] if str(a) in sub else v[a]
+            dropped = _cnf_table(o["ops"], leaf, n)
+            sig = "visit-table:not-drops-replacement" if (neg_replaced and got == dropped) else f"visit-table:other:{kind_sig(f)}"
+            ctx.oracle_fail(sig, dict(rep, read_by=how, assignment=asg(n)[i], got=got[i:i + 1], want=want[i], result=o.get("str"),
+                                      operands=o["ops"], result_operands=o["res"] if len(o["res"]) < 40 else "(large)"),
+                            "predicate rebuilt by SimplePredicateVisitor.apply_logical_* does not have the value of the original "
+                            "with the replaced leaves substituted")
+            break
+    if not coq or sum(len(g) for g in o["res"]) > 150:
+        return
+    subl = clist(f"({a}%N, {ccnf(ops)})" for a, ops in sorted(o["sub_ops"].items(), key=lambda kv: int(kv[0])))
+    st.visit_cases.append(f"(({n}%nat, {ccnf(o['ops'])}, {subl}, {cbool(o['none'])}, {ctable(o['tv'])}) : vcase)")
+    st.visit_meta.append(rep)
+
+
+def run_impl(ctx: Ctx, st: State, pred: Batch, nf: Batch, coq=True, steps_frac=True, visit: Batch | None = None):
     payloads, index = [], []
+    for n, cs in (visit.by_n if visit else {}).items():
+        for ch in _chunks(cs, 1500):
+            payloads.append(("run_visit", {"n": n, "cases": ch, "max_literals": 120}))
+            index.append(("visit", n, ch))
     for n, fs in pred.by_n.items():
         for ch in _chunks(fs, 1500):
             payloads.append(("run_pred", {"n": n, "formulas": ch, "max_literals": 400, "steps": n in (4, 5) and steps_frac}))
@@ -455,6 +552,8 @@ def run_impl(ctx: Ctx, st: State, pred: Batch, nf: Batch, coq=True, steps_frac=T
         for item, o in zip(ch, res):
             if kind == "pred":
                 check_pred(ctx, st, n, item, o, coq)
+            elif kind == "visit":
+                check_visit(ctx, st, n, item, o, coq)
             else:
                 check_nf(ctx, st, n, item, o, coq)
 
@@ -462,19 +561,23 @@ def run_impl(ctx: Ctx, st: State, pred: Batch, nf: Batch, coq=True, steps_frac=T
 HDR = ("From Coq Require Import NArith List Bool.\nFrom V Require Import Base.Tri Model.Pred Model.NormalForm Model.PredCheck.\n"
        "Import ListNotations.\n")
 HDRG = HDR + "From V Require Import Gen.PredGen Model.PredCheckGen.\n"
+HDRN = HDR + "From V Require Import Gen.NormalFormGen Model.NormalFormCheckGen.\n"
+HDRV = HDR + "From V Require Import Gen.PredGen Gen.PredVisitGen Model.PredVisitCheck.\n"
 
 
-def coq_side(ctx: Ctx, st: State, gen_ok: bool):
+def coq_side(ctx: Ctx, st: State, gen_ok: bool, gen_nf_ok: bool = False, gen_pv_ok: bool = False):
     """One vm_compute pass per case list with the conjunction of all checkers; only the cases it rejects are
     re-evaluated with the individual checkers to tell a broken tie (truth tables differ) from structural drift."""
     G = "_gen" if gen_ok else ""
     hdr = HDRG if gen_ok else HDR
-    for name, cases, meta, allchk, tables, shapes_ in (
-        ("form", st.form_cases, st.form_meta, f"chk_form_all{G}", ["chk_form_table"] + (["chk_form_table_gen"] if gen_ok else []),
-         ["chk_form_shape"] + (["chk_form_shape_gen"] if gen_ok else [])),
-        ("step", st.step_cases, st.step_meta, f"chk_step_all{G}", ["chk_step_table"] + (["chk_step_table_gen"] if gen_ok else []),
-         ["chk_step_shape"] + (["chk_step_shape_gen"] if gen_ok else [])),
-        ("nf", st.nf_cases, st.nf_meta, "chk_nf_all", ["chk_nf_table"], ["chk_nf_shape"]),
+    for name, cases, meta, allchk, tables, shapes_, hdr in (
+        ("form", st.form_cases, st.form_meta, "chk_form_gen_only" if gen_ok else "chk_form_all", ["chk_form_table"] + (["chk_form_table_gen"] if gen_ok else []),
+         ["chk_form_shape"] + (["chk_form_shape_gen"] if gen_ok else []), hdr),
+        ("step", st.step_cases, st.step_meta, "chk_step_gen_only" if gen_ok else "chk_step_all", ["chk_step_table"] + (["chk_step_table_gen"] if gen_ok else []),
+         ["chk_step_shape"] + (["chk_step_shape_gen"] if gen_ok else []), hdr),
+        ("nf", st.nf_cases, st.nf_meta, "chk_nf_all_gen" if gen_nf_ok else "chk_nf_all",
+         ["chk_nf_table"] + (["chk_nf_table_gen"] if gen_nf_ok else []), ["chk_nf_shape"], HDRN if gen_nf_ok else HDR),
+        ("visit", st.visit_cases if gen_pv_ok else [], st.visit_meta, "chk_visit_table", ["chk_visit_table"], [], HDRV),
     ):
         if not cases:
             continue
@@ -503,7 +606,7 @@ def coq_side(ctx: Ctx, st: State, gen_ok: bool):
 
 
 def run_corpus(ctx: Ctx, st: State):
-    pred, nf = Batch(), Batch()
+    pred, nf, visit = Batch(), Batch(), Batch()
     d = VERIF / "corpus" / "C15"
     k = 0
     for p in sorted(d.glob("*.json")):
@@ -511,20 +614,49 @@ def run_corpus(ctx: Ctx, st: State):
             k += 1
             if c["system"] == "pred":
                 pred.add(c["n"], c["f"])
+            elif c["system"] == "visit":
+                visit.add(c["n"], {"f": c["f"], "sub": c["sub"]})
             else:
                 nf.add(c["n"], {"f": c["f"], "cnf": c["cnf"], "parse": c.get("parse", False)})
-    run_impl(ctx, st, pred, nf)
+    run_impl(ctx, st, pred, nf, visit=visit)
     ctx.hist("cases", "corpus", k)
 
 
+def load_known_d(ctx):
+    """known_findings.json is assembled from known_findings.d by the integrator; until then read our own entries"""
+    p = VERIF / "known_findings.d" / "C15.json"
+    if p.exists():
+        have = {k["id"] for k in ctx.known}
+        for k in json.loads(p.read_text()):
+            if k.get("property") == "C15" and k["id"] not in have:
+                ctx.known.append(k)
+
+
+def regen_all(ctx: Ctx):
+    gen_ok = ctx.regen("predicate", tr.translate)
+    gen_nf_ok = ctx.regen("normalform", tr_nf.translate)
+    gen_pv_ok = ctx.regen("pred_visitor", tr_pv.translate)
+    return gen_ok, gen_nf_ok, gen_pv_ok
+
+
+def check_targets(gen_ok, gen_nf_ok, gen_pv_ok):
+    return (["Model/PredCheck.vo"] + (["Model/PredCheckGen.vo"] if gen_ok else [])
+            + (["Model/NormalFormCheckGen.vo"] if gen_nf_ok else []) + (["Model/PredVisitCheck.vo"] if gen_ok and gen_pv_ok else []))
+
+
 def run(ctx: Ctx):
+    load_known_d(ctx)
     ctx.assumptions += [
         "object identity (`a is b` in Predicate._impl_and) is modelled as a boolean supplied by the environment; theorems "
         "assume only that identical objects are equal, the correspondence run observes the real flags",
         "translator harness/translators/predicate.py (Python ast -> Gallina) is trusted; its output is also compared with the "
         "implementation on every generated formula",
-        "legacy normalForm.py is tied by correspondence only (hand model Model/NormalForm.v); atoms are opaque nodes whose "
-        "Kleene value is given by the assignment",
+        "legacy normalForm.py: the wrapper classes' rules are regenerated (harness/translators/normalform.py, trusted: class "
+        "dispatch read as a match on the receiver, wrapper objects immutable, `x.normalize(form)` read as the fuelled recursive "
+        "call); TransformationVisitor / fromTree / unwrap / TreeReconstructionVisitor are hand-modelled with their source text "
+        "pinned; atoms are opaque nodes whose Kleene value is given by the assignment",
+        "SimplePredicateVisitor.apply_logical_* regenerated (harness/translators/pred_visitor.py); the @final "
+        "PredicateVisitor._visit_logical_* composition is hand-modelled (Model/PredVisitCheck.v) and compared on every case",
         "CPython semantics of tuple concatenation, itertools.product order, all()/any() on tuples of tuples",
     ]
     ctx.cov["rule"] = (
@@ -532,27 +664,36 @@ def run(ctx: Ctx):
         "(De Morgan + distribution both run); legacy: when NOT is applied to an AND/OR or normalisation had to "
         "distribute (result has more leaves than the input); distinctness by hash of (system, formula, form)"
     )
-    gen_ok = ctx.regen("predicate", tr.translate)
-    props_ok = ctx.build_props(extra_targets=["Model/PredCheck.vo"] + (["Model/PredCheckGen.vo"] if gen_ok else []))
+    gen_ok, gen_nf_ok, gen_pv_ok = regen_all(ctx)
+    props_ok = ctx.build_props(extra_targets=check_targets(gen_ok, gen_nf_ok, gen_pv_ok))
     if not props_ok:
         coq_make(["Model/PredCheck.vo"])
         if gen_ok:
             ok, _ = coq_make(["Model/PredCheckGen.vo"])
             gen_ok = gen_ok and ok
+        if gen_nf_ok:
+            ok, _ = coq_make(["Model/NormalFormCheckGen.vo"])
+            gen_nf_ok = gen_nf_ok and ok
+        if gen_pv_ok:
+            ok, _ = coq_make(["Model/PredVisitCheck.vo"])
+            gen_pv_ok = gen_pv_ok and ok
 
     st = State()
     run_corpus(ctx, st)
     pred, nf = gen_pred(ctx, ctx.rng, ctx.quick), gen_nf(ctx, ctx.rng, ctx.quick)
+    visit = gen_visit(ctx, ctx.rng, ctx.quick)
     ctx.hist("cases", "pred_generated", pred.total())
     ctx.hist("cases", "nf_generated", nf.total())
-    ctx.log(f"generated {pred.total()} new-system formulas, {nf.total()} legacy cases")
-    run_impl(ctx, st, pred, nf)
-    ctx.log(f"implementation done; coq cases: form {len(st.form_cases)}, step {len(st.step_cases)}, nf {len(st.nf_cases)}")
-    for m, c in ((st.form_meta, st.form_cases), (st.step_meta, st.step_cases), (st.nf_meta, st.nf_cases)):
+    ctx.hist("cases", "visit_generated", visit.total())
+    ctx.log(f"generated {pred.total()} new-system formulas, {nf.total()} legacy cases, {visit.total()} visitor cases")
+    run_impl(ctx, st, pred, nf, visit=visit)
+    ctx.log(f"implementation done; coq cases: form {len(st.form_cases)}, step {len(st.step_cases)}, nf {len(st.nf_cases)}, "
+            f"visit {len(st.visit_cases)}")
+    for m, c in ((st.form_meta, st.form_cases), (st.step_meta, st.step_cases), (st.nf_meta, st.nf_cases), (st.visit_meta, st.visit_cases)):
         if c:
             k = len(c) // 2
             ctx.sample({"case": m[k], "coq_case": c[k][:600]})
-    coq_side(ctx, st, gen_ok)
+    coq_side(ctx, st, gen_ok, gen_nf_ok, gen_pv_ok and gen_ok)
 
     if ctx.broken and not ctx.oracle_failures:
         search(ctx)
@@ -568,7 +709,8 @@ def search(ctx: Ctx):
     n0 = ctx.cov["evaluations"]
     for seed in range(1, 3 if ctx.quick else 6):
         rng = random.Random(f"C15-search:{ctx.seed}:{seed}")
-        run_impl(ctx, st, gen_pred(ctx, rng, False), gen_nf(ctx, rng, False), coq=False, steps_frac=False)
+        run_impl(ctx, st, gen_pred(ctx, rng, False), gen_nf(ctx, rng, False), coq=False, steps_frac=False,
+                 visit=gen_visit(ctx, rng, False))
         if ctx.oracle_failures:
             break
     ctx.cov["search"] = (f"thorough-size generation with {seed} extra seed(s), {ctx.cov['evaluations'] - n0} formulas through the "
@@ -577,17 +719,20 @@ def search(ctx: Ctx):
 
 def replay(ctx: Ctx, rep: dict):
     """re-run exactly the recorded case on the implementation (oracle) and on the models (correspondence)"""
+    load_known_d(ctx)
     st = State()
-    pred, nf = Batch(), Batch()
+    pred, nf, visit = Batch(), Batch(), Batch()
     if rep.get("system") == "pred" and "f" in rep:
         pred.add(rep["n"], rep["f"])
+    elif rep.get("system") == "visit" and "f" in rep:
+        visit.add(rep["n"], {"f": rep["f"], "sub": rep["sub"]})
     elif rep.get("system") == "nf" and "f" in rep:
         nf.add(rep["n"], {"f": rep["f"], "cnf": rep["cnf"], "parse": rep.get("parse", False)})
     else:
         ctx.log("replay file carries no single case (broken obligation / worker failure): running the whole check with its seed")
         return run(ctx)
-    gen_ok = ctx.regen("predicate", tr.translate)
-    coq_make(["Model/PredCheck.vo"] + (["Model/PredCheckGen.vo"] if gen_ok else []))
-    run_impl(ctx, st, pred, nf)
-    coq_side(ctx, st, gen_ok)
+    gen_ok, gen_nf_ok, gen_pv_ok = regen_all(ctx)
+    coq_make(check_targets(gen_ok, gen_nf_ok, gen_pv_ok))
+    run_impl(ctx, st, pred, nf, visit=visit)
+    coq_side(ctx, st, gen_ok, gen_nf_ok, gen_pv_ok and gen_ok)
     ctx.log(f"replayed {ctx.replay}: oracle failures {sorted({s for s, _ in ctx.oracle_failures})}")
